@@ -201,6 +201,11 @@ def _temporal_tabulate(ctx) -> None:
         ctx.unverified("STATE-COMPLETE.tabulated", "FixedTimezone", f"outside the checker's interpreter: {type(e).__name__}: {e}", zm.rel)
 
 
+def _fixed_timezone_state(ctx) -> None:
+    from . import C01
+    C01.fixed_timezone_tabulate(ctx)
+
+
 def _deepcopy_temporal(ctx) -> None:
     m = pmod("datetime")
     sites = recon.sites_in(m, ["DateTime.__deepcopy__"])
@@ -460,6 +465,7 @@ def _fixed_timezone(ctx) -> None:
 def run(ctx) -> None:
     ctx.explanation = EXPLANATION
     ctx.step(_temporal_tabulate, ctx)
+    ctx.step(_fixed_timezone_state, ctx)
     ctx.step(_temporal, ctx, "datetime", "DateTime", "_getstate", F7)
     ctx.step(_temporal, ctx, "time", "Time", "_get_state", recon.TIME_F)
     ctx.step(_deepcopy_temporal, ctx)
